@@ -49,8 +49,8 @@ def annotate(rng, sk, style, in_adt=False):
         annots.append('%' + rng.choice(NAMES))
     if sk[0] == 'p':
         out = {'prim': sk[1]}
-    elif sk[0] == 'option':
-        out = {'prim': 'option', 'args': [annotate(rng, sk[1], style)]}
+    elif sk[0] in ('option', 'list'):
+        out = {'prim': sk[0], 'args': [annotate(rng, sk[1], style)]}
     else:
         out = {'prim': sk[0], 'args': [annotate(rng, sk[1], style, True), annotate(rng, sk[2], style, True)]}
     if annots:
@@ -77,6 +77,8 @@ def gen_value(rng, sk):
         return {'prim': 'Pair', 'args': [gen_value(rng, sk[1]), gen_value(rng, sk[2])]}
     if k == 'option':
         return {'prim': 'None'} if rng.random() < 0.3 else {'prim': 'Some', 'args': [gen_value(rng, sk[1])]}
+    if k == 'list':
+        return [gen_value(rng, sk[1]) for _ in range(rng.choice([0, 1, 2, 2, 3]))]
     if rng.random() < 0.5:
         return {'prim': 'Left', 'args': [gen_value(rng, sk[1])]}
     return {'prim': 'Right', 'args': [gen_value(rng, sk[2])]}
@@ -93,7 +95,8 @@ def near_value(rng, sk, v):
 def text(m):
     """tiny Micheline -> Michelson text renderer (no dependence on pytezos' formatter)"""
     if isinstance(m, list):
-        return '{ ' + ' ; '.join(text(x) for x in m) + ' }'
+        els = [text(x) for x in m]
+        return '{ ' + ' ; '.join(e[1:-1] if e.startswith('(') else e for e in els) + ' }' if els else '{}'
     if 'int' in m:
         return m['int']
     if 'string' in m:
@@ -104,8 +107,9 @@ def text(m):
     return parts[0] if len(parts) == 1 else '(' + ' '.join(parts) + ')'
 
 
-TYPED = ('PUSH', 'UNPACK', 'NONE', 'LEFT', 'RIGHT')     # instructions carrying a type argument at index 1
-BRANCHY = ('IF', 'IF_NONE', 'IF_LEFT')
+TYPED = ('PUSH', 'UNPACK', 'NONE', 'LEFT', 'RIGHT', 'NIL')     # instructions carrying a type argument at index 1
+BRANCHY = ('IF', 'IF_NONE', 'IF_LEFT', 'IF_CONS')
+BODY1 = ('ITER', 'MAP', 'LOOP')
 
 
 def code_text(body):
@@ -115,8 +119,10 @@ def code_text(body):
 def instr_text(i):
     if i[0] == 'PUSH':
         return f'PUSH {text(i[1])} {text(i[2])}'
-    if i[0] in ('UNPACK', 'NONE', 'LEFT', 'RIGHT'):
+    if i[0] in ('UNPACK', 'NONE', 'LEFT', 'RIGHT', 'NIL'):
         return f'{i[0]} {text(i[1])}'
+    if i[0] in BODY1:
+        return f'{i[0]} {code_text(i[1])}'
     if i[0] in BRANCHY:
         return f'{i[0]} {code_text(i[1])} {code_text(i[2])}'
     if i[0] == 'DIP':
@@ -136,6 +142,8 @@ def c_ty(cls):
         return f'(TyPair {a} {c_ty(cls.args[0])} {c_ty(cls.args[1])})'
     if cls.prim == 'option':
         return f'(TyOption {a} {c_ty(cls.args[0])})'
+    if cls.prim == 'list':
+        return f'(TyList {a} {c_ty(cls.args[0])})'
     if cls.prim == 'or':
         return f'(TyOr {a} {c_ty(cls.args[0])} {c_ty(cls.args[1])})'
     return f'(TyPrim {a} x{lib.prim_tag(cls.prim):02x})'
@@ -149,6 +157,12 @@ def c_val(x):
     a = c_ann(cls)
     if isinstance(x, PairType):
         return f'(GPair {a} {c_val(x.items[0])} {c_val(x.items[1])})'
+    if cls.prim == 'list':
+        t = c_ty(cls.args[0])
+        out = f'(GNil {a} {t})'
+        for item in reversed(x.items):
+            out = f'(GCons {a} {t} {c_val(item)} {out})'
+        return out
     if isinstance(x, OptionType):
         if x.item is None:
             return f'(GNone {a} {c_ty(cls.args[0])})'
@@ -184,16 +198,22 @@ def c_code(body):
 def c_instr(i):
     if i[0] == 'PUSH':
         return f'(IPushT {c_tyexpr(i[1])} {lib.cnode(i[2])})'
-    if i[0] in ('UNPACK', 'NONE', 'LEFT', 'RIGHT'):
-        return '(' + {'UNPACK': 'IUnpack', 'NONE': 'INone', 'LEFT': 'ILeft', 'RIGHT': 'IRight'}[i[0]] + ' ' + c_tyexpr(i[1]) + ')'
+    if i[0] in ('UNPACK', 'NONE', 'LEFT', 'RIGHT', 'NIL'):
+        return '(' + {'UNPACK': 'IUnpack', 'NONE': 'INone', 'LEFT': 'ILeft', 'RIGHT': 'IRight', 'NIL': 'INil'}[i[0]] + ' ' + c_tyexpr(i[1]) + ')'
+    if i[0] in BODY1:
+        return '(' + {'ITER': 'IIter', 'MAP': 'IMap', 'LOOP': 'ILoop'}[i[0]] + ' ' + c_code(i[1]) + ')'
+    if i[0] in ('EQ', 'NEQ', 'LT', 'GT', 'LE', 'GE'):
+        return f'(ICmpOp x{lib.prim_tag(i[0]):02x})'
+    if i[0] in ('ADD', 'SUB', 'MUL'):
+        return f'(IArith x{lib.prim_tag(i[0]):02x})'
     if i[0] in BRANCHY:
-        return '(' + {'IF': 'IIf', 'IF_NONE': 'IIfNone', 'IF_LEFT': 'IIfLeft'}[i[0]] + f' {c_code(i[1])} {c_code(i[2])})'
+        return '(' + {'IF': 'IIf', 'IF_NONE': 'IIfNone', 'IF_LEFT': 'IIfLeft', 'IF_CONS': 'IIfCons'}[i[0]] + f' {c_code(i[1])} {c_code(i[2])})'
     if i[0] == 'DIP':
         return f'(IDip {cnat(i[1])} {c_code(i[2])})'
     if i[0] in ('GET', 'UPDATE', 'PAIR', 'UNPAIR') and len(i) == 2:
         return '(' + {'GET': 'IGet', 'UPDATE': 'IUpdate', 'PAIR': 'IPairN', 'UNPAIR': 'IUnpairN'}[i[0]] + ' ' + cnat(i[1]) + ')'
     return {'CAR': 'ICar', 'CDR': 'ICdr', 'PAIR': 'IPair', 'UNPAIR': 'IUnpair', 'COMPARE': 'ICompare', 'PACK': 'IPack',
-            'DUP': 'IDup', 'SWAP': 'ISwap', 'DROP': 'IDrop', 'SOME': 'ISome', 'UNIT': 'IUnit', 'EQ': 'IEq'}[i[0]]
+            'DUP': 'IDup', 'SWAP': 'ISwap', 'DROP': 'IDrop', 'SOME': 'ISome', 'UNIT': 'IUnit', 'CONS': 'ICons'}[i[0]]
 
 
 
@@ -294,7 +314,7 @@ def gen_program(rng):
     """returns a list of abstract instructions (type arguments are skeletons, annotated per twin); generated by probing a real
     interpreter instruction by instruction, so that most programs are well-shaped"""
     from pytezos.michelson.repl import Interpreter
-    from pytezos.michelson.types import BoolType, IntType, OptionType, OrType, PairType
+    from pytezos.michelson.types import BoolType, IntType, ListType, OptionType, OrType, PairType
     itp = Interpreter()
 
     def probe(i):
@@ -334,7 +354,51 @@ def gen_program(rng):
                 gen_ops(body, rng.randrange(0, 3), level + 1)
                 out.append(('IF_LEFT', body, junk()) if is_left else ('IF_LEFT', junk(), body))
             elif isinstance(top, IntType) and type(top).prim == 'int' and r < 0.5:
-                emit(('EQ',))
+                emit((rng.choice(['EQ', 'EQ', 'NEQ', 'LT', 'GT', 'LE', 'GE']),))
+            elif isinstance(top, ListType) and r < 0.75:
+                first = top.items[0] if top.items else None
+                if r < 0.2 and level < 3:
+                    nonempty = len(top.items) > 0
+                    lib.call(itp.execute, 'IF_CONS {} {}')
+                    body = []
+                    gen_ops(body, rng.randrange(0, 3), level + 1)
+                    out.append(('IF_CONS', body, junk()) if nonempty else ('IF_CONS', junk(), body))
+                elif r < 0.4:
+                    emit(('ITER', rng.choice([[('DROP',)], [('SOME',), ('DROP',)], [('DUP',), ('PAIR',), ('DROP',)]])))
+                elif r < 0.7:
+                    if isinstance(first, PairType):
+                        k = len(list(first.iter_comb()))
+                        body = rng.choice([[('CAR',)], [('CDR',)], [('GET', rng.randrange(0, 2 * k))], [], [('DUP',), ('PAIR',)],
+                                           [('UNPAIR',), ('SWAP',), ('PAIR',)]])
+                    else:
+                        body = rng.choice([[], [('DUP',), ('PAIR',)], [('UNIT',), ('SWAP',), ('PAIR',)], [('DUP',), ('COMPARE',)]])
+                    emit(('MAP', body))
+                else:
+                    emit(('PACK',) if not has_packed(top) else ('DUP',))
+            elif r < 0.07:
+                # a counting LOOP whose body touches the value below
+                k = rng.choice([0, 1, 2, 3])
+                inner = rng.choice([[], [('DUP',), ('DROP',)], [('DUP',), ('PACK',), ('DROP',)], [('DUP',), ('SOME',), ('DROP',)]])
+                if top is None or has_packed(top):
+                    inner = []
+                emit(('PUSH', ('p', 'int'), {'int': str(k)}))
+                emit(('DUP',))
+                emit(('GT',))
+                emit(('LOOP', [('DIP', 1, inner), ('PUSH', ('p', 'int'), {'int': '1'}), ('SWAP',), ('SUB',), ('DUP',), ('GT',)]))
+                emit(('DROP',))
+            elif r < 0.12:
+                # lists built with NIL / CONS from annotated element types
+                sk = gen_comb(rng, 1, rng.choice([2, 3])) if rng.random() < 0.7 else gen_leaf(rng, 0)
+                emit(('NIL', sk))
+                for _ in range(rng.choice([1, 2, 2])):
+                    push(sk)
+                    emit(('CONS',))
+            elif r < 0.15:
+                push(('list', gen_comb(rng, 1, rng.choice([2, 3]))))
+            elif r < 0.19:
+                emit(('PUSH', ('p', rng.choice(['int', 'nat'])), {'int': str(rng.choice([0, 1, 5, 12]))}))
+                emit(('PUSH', ('p', rng.choice(['int', 'nat'])), {'int': str(rng.choice([0, 2, 7, 100]))}))
+                emit((rng.choice(['ADD', 'SUB', 'MUL']),))
             elif r < 0.08 and depth >= 2 and level < 2:
                 n = rng.choice([1, 1, 2, depth - 1])
                 held = items[:n]
@@ -399,8 +463,11 @@ def gen_program(rng):
     probe(first)
     gen_ops(prog, rng.randrange(1, 7), 0)
     if rng.random() < 0.12:
-        op = rng.choice(['CAR', 'CDR', 'GET', 'UNPAIR', 'COMPARE', 'UPDATE', 'PAIR', 'EQ', 'IF_NONE', 'IF_LEFT', 'SOME'])
-        if op in ('IF_NONE', 'IF_LEFT'):
+        op = rng.choice(['CAR', 'CDR', 'GET', 'UNPAIR', 'COMPARE', 'UPDATE', 'PAIR', 'EQ', 'IF_NONE', 'IF_LEFT', 'SOME', 'CONS', 'ADD', 'IF_CONS'])
+        its = itp.stack.items
+        if op == 'COMPARE' and len(its) >= 2 and (has_packed(its[0]) or has_packed(its[1])):
+            op = 'CAR'      # the model does not forge: packed bytes are never compared
+        if op in ('IF_NONE', 'IF_LEFT', 'IF_CONS'):
             prog.append((op, [], []))
         else:
             prog.append((op, rng.randrange(0, 9)) if op in ('GET', 'UPDATE', 'PAIR', 'UNPAIR') and (op in ('GET', 'UPDATE') or rng.random() < 0.5) else (op,))
@@ -414,6 +481,8 @@ def concretize1(rng, i, style):
         return (i[0], concretize(rng, i[1], style), concretize(rng, i[2], style))
     if i[0] == 'DIP':
         return ('DIP', i[1], concretize(rng, i[2], style))
+    if i[0] in BODY1:
+        return (i[0], concretize(rng, i[1], style))
     return i
 
 
@@ -422,7 +491,8 @@ def concretize(rng, prog, style):
 
 
 def n_instr(prog):
-    return sum(1 + (n_instr(i[1]) + n_instr(i[2]) if i[0] in BRANCHY else n_instr(i[2]) if i[0] == 'DIP' else 0) for i in prog)
+    return sum(1 + (n_instr(i[1]) + n_instr(i[2]) if i[0] in BRANCHY else n_instr(i[2]) if i[0] == 'DIP' else n_instr(i[1]) if i[0] in BODY1 else 0)
+               for i in prog)
 
 
 
@@ -609,7 +679,9 @@ def run(ctx: lib.Ctx) -> None:
                 '(annotated ~90% of positions incl. inner comb pairs, partially annotated, stripped). non-trivial = program with >= 2 '
                 'instructions after the first PUSH whose annotated twin has >= 1 annotation; distinct = distinct program text')
     # tables: prim tags used by the model
-    want = {'Pair': 0x07, 'Some': 0x09, 'None': 0x06, 'Left': 0x05, 'Right': 0x08, 'True': 0x0a, 'False': 0x03, 'Unit': 0x0b, 'int': 0x5b}
+    want = {'Pair': 0x07, 'Some': 0x09, 'None': 0x06, 'Left': 0x05, 'Right': 0x08, 'True': 0x0a, 'False': 0x03, 'Unit': 0x0b, 'int': 0x5b,
+            'nat': 0x62, 'mutez': 0x6a, 'string': 0x68, 'bytes': 0x69, 'bool': 0x59, 'unit': 0x6c, 'ADD': 0x12, 'SUB': 0x4b, 'MUL': 0x3a,
+            'EQ': 0x25, 'NEQ': 0x3c, 'LT': 0x37, 'GT': 0x2a, 'LE': 0x32, 'GE': 0x28}
     got = {k: prim_tags[k][0] for k in want}
     ctx.table('value primitive tags of Comb.v (Pair Some None Left Right True False Unit int)')
     if got != want:
@@ -653,7 +725,7 @@ def run(ctx: lib.Ctx) -> None:
             except Exception as e:  # noqa: BLE001  the implementation cannot even build the pushed value
                 lit_in = None
             if lit_in is not None:
-                lit_out = 'Reject' if items is None else '(Ok ' + clist(c_val(x) for x in items) + ')'
+                lit_out = 'Fail' if items is None else '(Done ' + clist(c_val(x) for x in items) + ')'
                 cases.append((lit_in, lit_out))
                 meta.append((code, obs))
                 if items:
@@ -726,7 +798,7 @@ def run(ctx: lib.Ctx) -> None:
     ctx.extra['known_finding_hits'] = known_hits
     ctx.extra['wide_templates_ok_counts'] = wide_kinds
     T['interpreter'] = round(time.time() - t0, 1)
-    bad = ctx.coq_mismatches('comb', IMPORTS, 'run_prog', 'out_eqb', 'list (cinstr ann)', 'result (list aval)', cases, shard=70)
+    bad = ctx.coq_mismatches('comb', IMPORTS, 'run_prog', 'out_eqb', 'list (cinstr ann)', 'outcome ann', cases, shard=70)
     mbad = ctx.coq_mismatches('mich', IMPORTS, 'fun v => [to_mich Readable v; to_mich Optimized v; to_mich LegacyOptimized v]',
                               'list_eqb node_eqb', 'aval', 'list node', mcases, shard=100)
     ctx.extra['rendering_cases'] = len(mcases)
